@@ -177,9 +177,26 @@ def restart_guard(B, bb):
                 fields_ok = True
         if not fields_ok or tt.get("target") is None:
             continue
-        sw = B.term(tt["target"])
-        if sw.get("k") != "switch":
-            continue
+        # the switch on the test's result: directly behind the call, or behind the return of an inlined helper that made the test
+        sw_bb, hops = tt["target"], 0
+        while B.term(sw_bb).get("k") == "goto" and hops < 8:
+            sw_bb, hops = B.term(sw_bb)["target"], hops + 1
+        sw = B.term(sw_bb)
+        if sw.get("k") != "switch" or (hops and not any(o.kind == "call" and o.bb == tbb for o in M.trace(B, sw["discr"], M.IDENTITY_CALLS))):
+            # the result is kept in a local and tested later (`let seen = visited.contains(k); .. if seen { return Err }`): that is the
+            # same test as long as the collection cannot change in between
+            sw = None
+            for y in sorted(B.reachable_from(tbb)):
+                cand = B.term(y)
+                if cand.get("k") == "switch" and cand["discr"].get("k") in ("copy", "move") and any(
+                        o.kind == "call" and o.bb == tbb for o in M.trace(B, cand["discr"], M.IDENTITY_CALLS)):
+                    muts = [mbb for mbb, mt in B.calls() if (M.Body.callee_decl(mt) or "").endswith(("::push", "::pop", "::insert", "::remove", "::clear", "::retain", "::truncate"))
+                            and any(tuple(o.fields()) == f for o in M.trace(B, mt["args"][0], ()) for _, f in pushes)]
+                    if not any(mbb in B.reachable_from(tbb) and y in B.reachable_from(mbb) for mbb in muts):
+                        sw, sw_bb = cand, y
+                    break
+            if sw is None:
+                continue
         false_t = [tgt for v, tgt in sw["targets"] if v == 0]
         # (3) the value tested must be the value pushed: same roots (a test on one key and a push of another never meet)
         test_roots = set()
